@@ -145,7 +145,7 @@ func cmdC07(args []string) {
 	r := rand.New(rand.NewSource(*seed))
 	p := Profile{Name: "C07", Ops: 36, Set: 30, Del: 10, Get: 8, GetI: 5, Min: 3, Max: 3, Totals: 3, Visit: 6,
 		Flush: 10, Evict: 8, Reopen: 6, Revert: 2, Copy: 2, Snap: 2, SnapClose: 1, Len: 1, MaxColls: 2, Drop: 20, BigVals: false,
-		Iter: 2, SnapRevert: 1, CloseSnapsOnReopen: true, Exist: 3}
+		Iter: 2, SnapRevert: 1, CloseSnapsOnReopen: true, Exist: 3, Write: 2}
 	if *prof == "C11" {
 		p.Name = "C07-C11"
 		p.Copy, p.Set, p.Get, p.GetI, p.Revert, p.Iter, p.MaxColls = 12, 40, 2, 2, 1, 0, 3
